@@ -36,8 +36,8 @@ pub fn c13(v: &View) -> Vec<Violation> {
         failed.push(F { o, reason, matched: false });
     }
     let label_ok = |how: How, op: &str| match how {
-        How::Tell | How::TellT(_) | How::TellC(_) => op == "tell",
-        How::Ask | How::AskT(_) | How::AskJoin | How::AskC(_) | How::AskTL(..) => op == "ask",
+        How::Tell | How::TellT(_) | How::TellC(_) | How::TellL { .. } => op == "tell",
+        How::Ask | How::AskT(_) | How::AskJoin | How::AskC(_) | How::AskTL(..) | How::AskL { .. } => op == "ask",
         How::BTell(_) | How::DepTell(_) => op == "tell" || op == "blocking_tell",
         How::BAsk(_) | How::DepAsk(_) => op == "ask" || op == "blocking_ask",
     };
@@ -224,6 +224,12 @@ pub fn ask_edges(v: &View) -> Vec<AskEdge> {
                     .map(|h| h.0);
             }
         }
+        // the asker's task died (a sibling call of the same hook panicked, ...): its futures are gone
+        if gone.is_none() {
+            if let Some(p) = v.actors[x].panic_seq.filter(|p| *p > o.b_seq) {
+                gone = Some(p);
+            }
+        }
         let panicked = match &o.res {
             Some(Res::Panicked(m)) => Some(m.clone()),
             _ => None,
@@ -395,14 +401,23 @@ pub fn c15(v: &View) -> Vec<Violation> {
         got.sort();
         if got != want {
             let extra: Vec<_> = got.iter().filter(|e| !want.contains(e)).collect();
-            let missing: Vec<_> = want.iter().filter(|e| !got.contains(e)).collect();
+            // an actor with several asks in flight at once keeps one edge only (the documented
+            // limitation of the detection): a missing edge is reported for sequential askers only
+            let concurrent: HashSet<u64> = es
+                .iter()
+                .filter(|e| es.iter().any(|f| f.op != e.op && f.x == e.x && f.b_seq < e.gone.unwrap_or(u64::MAX) && e.b_seq < f.gone.unwrap_or(u64::MAX)))
+                .map(|e| ids[&e.x])
+                .collect();
+            let missing: Vec<_> = want.iter().filter(|e| !got.contains(e) && !concurrent.contains(&e.0)).collect();
             if !extra.is_empty() {
                 out.push(viol("C15", "graph-residue", format!("wait-for graph at quiescent instant t={t} (seq {g}) contains {extra:?} although no such ask is in flight (expected {want:?})")));
             }
             if !missing.is_empty() {
                 out.push(viol("C15", "graph-missing-edge", format!("wait-for graph at quiescent instant t={t} (seq {g}) lacks {missing:?} of the asks in flight")));
             }
-            break;
+            if !extra.is_empty() || !missing.is_empty() {
+                break;
+            }
         }
     }
     out
